@@ -184,3 +184,51 @@ func panicsUnlessCall(fn *ssa.Function, callee string) (ssa.Instruction, bool) {
 	}
 	return find(fn, nil, 0)
 }
+
+// leaf is a value contributing to another value, with the resolver
+// environment under which it was reached.
+type leaf struct {
+	V  ssa.Value
+	Rs *core.Resolver
+}
+
+// valueLeaves expands v through phis and through calls of module functions
+// (all of their return values, parameters bound to the arguments) down to
+// values that are neither; depth-limited.
+func valueLeaves(v ssa.Value, rs *core.Resolver, depth int) []leaf {
+	if rs == nil {
+		rs = core.NewResolver()
+	}
+	v = rs.R(v)
+	if depth > 6 {
+		return []leaf{{v, rs}}
+	}
+	switch x := v.(type) {
+	case *ssa.Phi:
+		var out []leaf
+		for _, e := range x.Edges {
+			out = append(out, valueLeaves(e, rs, depth+1)...)
+		}
+		return out
+	case *ssa.Call:
+		cal := x.Common().StaticCallee()
+		if cal != nil && len(cal.Blocks) > 0 && cal.Pkg != nil && x.Parent() != nil && cal.Pkg == core.Outermost(x.Parent()).Pkg && cal.Signature.Results().Len() == 1 {
+			rs2 := core.NewResolver()
+			for k, vv := range rs.Env {
+				rs2.Env[k] = vv
+			}
+			rs2.Bind(x)
+			var out []leaf
+			for _, ret := range core.Returns(cal) {
+				if cal.Recover != nil && ret.Block() == cal.Recover {
+					continue
+				}
+				out = append(out, valueLeaves(ret.Results[0], rs2, depth+1)...)
+			}
+			if len(out) > 0 {
+				return out
+			}
+		}
+	}
+	return []leaf{{v, rs}}
+}
